@@ -139,7 +139,8 @@ def totality_and_bound(args):
         # object documents (optimum, coordinates, box) and, for the deterministic functions, a second call on the same
         # point must return the same cost
         ctx.check('evaluate-leaves-the-documented-optimum-and-box-untouched', not _same_documented(doc0, _documented(prob)))
-        if 'XinSheYang' not in name and not (isinstance(v, complex) or v is None or isinstance(v, (list, tuple))):
+        havoc = getattr(getattr(ctx, 'engine', None), 'mode', 'precise') == 'havoc'    # products are fresh variables there
+        if 'XinSheYang' not in name and not havoc and not (isinstance(v, complex) or v is None or isinstance(v, (list, tuple))):
             r2 = prob.evaluate(Individual(list(x)))
             if isinstance(r2, (list, tuple)) and len(r2) == 1:
                 ctx.check('second-call-on-the-same-point-returns-the-same-cost', ops.differs(r2[0], v, 1e-9))
